@@ -144,12 +144,16 @@ func Generate(seed uint64, n int, tier, corpusDir string, shard int, out *kit.Ou
 		hs = append(hs, genHistory(r.Fork(), backend))
 	}
 	// concurrent conditional operations on both real backends (see runConc)
-	for i, be := range []string{"mem", "bbolt", "bbolt"} {
-		keys := 25
+	// (mem's window between check and write would be a few instructions wide: many callers, many keys)
+	for _, cc := range []struct {
+		be      string
+		n, keys int
+	}{{"mem", 8, 600}, {"mem", 16, 300}, {"bbolt", 4, 25}, {"bbolt", 6, 25}} {
+		keys := cc.keys
 		if tier == "thorough" {
-			keys = 150
+			keys *= 6
 		}
-		c, err := runConc(be, 2+2*i, keys, seed+uint64(shard))
+		c, err := runConc(cc.be, cc.n, keys, seed+uint64(shard))
 		if err != nil {
 			return err
 		}
